@@ -55,6 +55,17 @@ func (c *Cache) evict() {
 	c.cnt = c.cnt - 1
 }
 
+// Invalidate drops the cached object of id, if any, so that the next user
+// reloads it.
+func (c *Cache) Invalidate(id uint64) {
+	c.mu.Lock()
+	e := c.entries[id]
+	if e != nil {
+		e.slot.Obj = nil
+	}
+	c.mu.Unlock()
+}
+
 func (c *Cache) LookupSlot(id uint64) *Cslot {
 	c.mu.Lock()
 	e := c.entries[id]
